@@ -740,6 +740,11 @@ func runMintSeq(c *Ctx) {
 }
 
 func runOneHistory(c *Ctx, h int, nOps int, model bool) {
+	// every history draws from its own fork of the run's PRNG: how much one history consumes (the corpus of history 0
+	// grows with every seeded change that was missed) does not change the histories after it
+	parent := c.Rng
+	c.Rng = parent.Fork()
+	defer func() { c.Rng = parent }()
 	r := c.Rng
 	opts := MintOpts{FeePpk: feeChoices[r.Intn(len(feeChoices))], FeePct: r.Chance(60), MPP: r.Chance(40)}
 	if r.Chance(25) {
